@@ -21,7 +21,7 @@ RULE = (
     "display_photos_keyword, ascending, normalize, scale in {None, values in (0,1], 1, 1.0, 0, 0.0, negative, >1}, mother given "
     "by EvtGen or by PDG name. Oracle: stdout split into rows/fields; one row per line; daughters/model/params/PHOTOS as "
     "requested; order = sort by the stored value in the requested direction (file order among equal values for descending; "
-    "any order of equal values for ascending); value within 1e-6 relative of bf*factor (1, 1/sum, scale/max); sum = 1 under "
+    "any order of equal values for ascending); value within half a unit of the 7th significant digit of bf*factor (1, 1/sum, scale/max); sum = 1 under "
     "normalise; RuntimeError for normalize+scale and scale outside (0,1]; tables unchanged afterwards. Tables printed with "
     "normalize/scale have a positive largest value. Non-trivial: >=3 lines not already sorted, with a non-default option."
 )
@@ -43,6 +43,7 @@ def c16_case(draw):
         pdg_name, mother = None, draw(st.sampled_from(N.evtgen_safe()[:200]))
     pool = draw(G.name_pool(4, 7))
     n = draw(st.integers(1, 12))
+    near_one = draw(st.sampled_from((None,) * 12 + (("0.5", "0.5", "4e-7"), ("0.7", "0.3", "9e-7"), ("0.25", "0.25", "0.4999996"), ("0.9999993",), ("0.6", "0.4000007"), ("0.2", "0.3", "0.1", "0.4000005"))))
     base = draw(st.lists(st.sampled_from(BFS), min_size=1, max_size=4))
     lines = []
     for _ in range(n):
@@ -51,6 +52,11 @@ def c16_case(draw):
         params = draw(G.params_list((), 4))
         lines.append({"bf": bf, "d": [draw(st.sampled_from(pool)) for _ in range(nd)], "photos": draw(st.integers(0, 2)) == 0,
                       "model": draw(st.sampled_from(N.MODELS)), "alias": False, "params": params})
+    if near_one is not None:
+        # a table whose sum differs from 1 only in the 7th digit
+        lines = lines[: len(near_one)] + [dict(lines[0], d=list(lines[0]["d"]), params=list(lines[0]["params"])) for _ in range(len(near_one) - len(lines))]
+        for ln, b in zip(lines, near_one):
+            ln["bf"] = b
     opts = {
         "print_model": draw(st.booleans()),
         "display_photos_keyword": draw(st.booleans()),
@@ -64,7 +70,12 @@ def c16_case(draw):
     for _ in range(draw(st.integers(0, 2))):
         more.append({"print_model": draw(st.booleans()), "display_photos_keyword": draw(st.booleans()), "ascending": draw(st.booleans()),
                      "normalize": draw(st.sampled_from((False, False, True))), "scale": draw(st.sampled_from((None, None, 0.5, 1.0, 0.25, 2.0)))})
-    return {"stmts": [{"k": "decay", "m": mother, "lines": lines}], "layout": [], "crlf": False, "end": False,
+    stmts = [{"k": "decay", "m": mother, "lines": lines}]
+    if draw(st.sampled_from((False, False, True))):
+        stmts.insert(draw(st.integers(0, 1)), {"k": "define", "n": "dm", "v": draw(N.num_literal())})
+        for ln in lines[: 1 + len(lines) // 2]:
+            ln["params"] = ln["params"] + [{"t": "word", "v": "dm"}]
+    return {"stmts": stmts, "layout": [], "crlf": False, "end": False,
             "pdg_name": pdg_name, "opts": opts, "more_opts": more}
 
 
@@ -79,10 +90,21 @@ def check_case(f, rec):
     p = make_parser(text, ID)
     for k, o in enumerate([f["opts"]] + list(f.get("more_opts", []))):
         check_print(f, text, p, o, rec, first=(k == 0))
+    if any(s["k"] == "define" for s in f["stmts"]):
+        # the same text with another value Define'd: a new parser must print the new value
+        import copy as _copy
+
+        f2 = _copy.deepcopy(f)
+        for s in f2["stmts"]:
+            if s["k"] == "define":
+                s["v"] = "12.5" if float(s["v"]) != 12.5 else "3.25"
+        text2 = G.render(f2)
+        check_print(f2, text2, make_parser(text2, ID), dict(f["opts"], print_model=True), rec, first=False)
+        rec.classes["second-parser-same-text-other-define"] += 1
 
 
 def check_print(f, text, p, o, rec, first=True):
-    mother = f["stmts"][0]["m"]
+    mother = next(s["m"] for s in f["stmts"] if s["k"] == "decay")
     lines = R.decay_tables(f)[mother]
     before = observed_tables(p, ID)
     kw = dict(print_model=o["print_model"], display_photos_keyword=o["display_photos_keyword"], ascending=o["ascending"],
@@ -152,8 +174,10 @@ def check_print(f, text, p, o, rec, first=True):
             raise Mismatch("C16:order-or-content", f"rows {k}..{j} (options {kw})", exp_payloads, got_payloads)
         want_v = lines[grp[0]]["bf"] * factor
         for v in printed_vals[k:j + 1]:
-            if not math.isclose(v, want_v, rel_tol=1e-6, abs_tol=1e-300):
-                raise Mismatch("C16:value", f"row value (options {kw})", want_v, v)
+            # 7 significant digits: at most half a unit of the 7th digit off (plus 2% slack for the last binary digit)
+            half_ulp = 0.51 * 10.0 ** (math.floor(math.log10(abs(want_v))) - 6) if want_v != 0 else 1e-300
+            if abs(v - want_v) > half_ulp:
+                raise Mismatch("C16:value", f"row value (options {kw}); 7 significant digits", want_v, v)
         k = j + 1
     if o["normalize"] and not math.isclose(sum(printed_vals), 1.0, abs_tol=len(lines) * 1e-6):
         raise Mismatch("C16:normalised-sum", "", 1.0, sum(printed_vals))
